@@ -109,10 +109,10 @@ func abstractOps(base string, ops []FSOp) []any {
 }
 
 type fsStats struct {
-	Protocol                                                                                 []M // recorded runs abstracted for the protocol-conformance check (GoitFSTrace)
-	CrashPoints, FaultPoints, Unreached, KillChecked, KillMismatch, Commands, Drift, Retries, Moved int
-	ByCmd                                                                                    map[string]int
-	Samples                                                                                  []any
+	Protocol                                                                                                         []M // recorded runs abstracted for the protocol-conformance check (GoitFSTrace)
+	CrashPoints, FaultPoints, Unreached, KillChecked, KillMismatch, Commands, Drift, Retries, Moved, Retried, ByPath int
+	ByCmd                                                                                                            map[string]int
+	Samples                                                                                                          []any
 }
 
 // fsEnumerate executes the events of one corpus trace; for every modifying goit command it enumerates
@@ -309,39 +309,110 @@ func fsEnumerate(goit string, c *Chunk, evs []M, contents map[string][]byte, tz 
 				}
 				for _, errno := range mode.Errnos[o.Kind] {
 					cur := o // the call that fails in this run (the intended one, or the one the fault really landed on)
-					fd, _ := os.MkdirTemp(scratchBase(), "vflt")
-					copyTree(preDir, fd)
-					fr := runnerAt(goit, fd, c.T, r.TZ)
-					flog := filepath.Join(fd, "strace.log")
-					fx, fops, _ := fr.RecordRun(append([]string{goit}, argv...), fmt.Sprintf("%s:error=%s:when=%d", o.Syscall, errno, o.Ord), flog)
-					os.Remove(flog)
+					var fd string
+					var fr *Runner
+					var fx ExecResult
+					var fops []FSOp
 					hit := false
-					for i := range fops {
-						if fops[i].Injected && fops[i].Syscall == cur.Syscall && sameModTmp(strings.TrimPrefix(fops[i].Path, fd), strings.TrimPrefix(cur.Path, base)) {
-							hit = true
+					runOnce := func(inject string, paths []string) {
+						if fd != "" {
+							os.RemoveAll(fd)
+							stats.Retried++
 						}
+						cur = o
+						fd, _ = os.MkdirTemp(scratchBase(), "vflt")
+						copyTree(preDir, fd)
+						fr = runnerAt(goit, fd, c.T, r.TZ)
+						flog := filepath.Join(fd, "strace.log")
+						var pp []string
+						for _, p := range paths {
+							abs := fd + strings.TrimPrefix(p, base)
+							pp = append(pp, abs)
+							if rel, err := filepath.Rel(fr.Root, abs); err == nil {
+								pp = append(pp, rel)
+							}
+						}
+						fx, fops, _ = fr.RecordRunPath(append([]string{goit}, argv...), inject, flog, pp)
+						os.Remove(flog)
 					}
-					if !hit {
-						// strace counts calls per thread and the Go runtime moves goroutines between threads, so the fault may land
-						// on another call than the intended one. If exactly one call on a repository path was made to fail, the run
-						// is still a single-fault run: it is judged as a fault at the position where it really happened.
-						var act *FSOp
-						nInj := 0
-						for i := range fops {
-							if fops[i].Injected {
-								nInj++
-								rel := strings.TrimPrefix(fops[i].Path, fd)
-								if strings.HasPrefix(rel, "/root/") || strings.HasPrefix(rel, "/home/") {
-									act = &fops[i]
+					// strace counts the calls of when= per thread, and which thread the main goroutine runs on is decided anew in
+					// every run. For a file with a stable name (also the target of a rename) only the calls on that file are
+					// traced, so that when= counts those alone: the few of them are made in a row, on whichever thread it is.
+					// The ordinal among all recorded calls on the file is tried first, then the one on the recording's thread.
+					filt := ""
+					if !strings.Contains(o.Path, "/tmp-") {
+						filt = o.Path
+					} else if o.Kind == "rename" && o.Path2 != "" && !strings.Contains(o.Path2, "/tmp-") {
+						filt = o.Path2
+					}
+					if filt != "" {
+						nthAll, nthTid := 0, 0
+						for j := 0; j <= oi; j++ {
+							if ops[j].Syscall == o.Syscall && (ops[j].Path == filt || ops[j].Path2 == filt) {
+								nthAll++
+								if ops[j].Tid == o.Tid {
+									nthTid++
 								}
 							}
 						}
-						if nInj == 1 && act != nil {
-							moved := *act
-							moved.Path = base + strings.TrimPrefix(act.Path, fd)
-							cur = &moved
-							hit = true
-							stats.Moved++
+						for _, nth := range []int{nthAll, nthTid} {
+							if hit || nth == 0 {
+								break
+							}
+							runOnce(fmt.Sprintf("%s:error=%s:when=%d", o.Syscall, errno, nth), []string{filt})
+							nInj := 0
+							for i := range fops {
+								if fops[i].Injected {
+									nInj++
+								}
+							}
+							for i := range fops {
+								if nInj == 1 && fops[i].Injected && fops[i].Syscall == o.Syscall && fops[i].Kind == o.Kind &&
+									(strings.TrimPrefix(fops[i].Path, fd) == strings.TrimPrefix(filt, base) || strings.TrimPrefix(fops[i].Path2, fd) == strings.TrimPrefix(filt, base)) {
+									hit = true
+									stats.ByPath++
+								}
+							}
+							if nthTid == nthAll {
+								break
+							}
+						}
+					}
+					// otherwise (a temporary file, whose name differs from run to run), or if that did not reach the call: the
+					// ordinal on the recording's thread, a few times, before the position is given up as unreached
+					for attempt := 0; attempt < 3 && !hit; attempt++ {
+						runOnce(fmt.Sprintf("%s:error=%s:when=%d", o.Syscall, errno, o.Ord), nil)
+						for i := range fops {
+							if fops[i].Injected && fops[i].Syscall == cur.Syscall && fops[i].Kind == cur.Kind && sameModTmp(strings.TrimPrefix(fops[i].Path, fd), strings.TrimPrefix(cur.Path, base)) {
+								hit = true
+							}
+						}
+						if !hit {
+							// The fault may land on another call than the intended one. If exactly one call on a repository path was
+							// made to fail, the run is still a single-fault run: it is judged as a fault at the position where it
+							// really happened.
+							var act *FSOp
+							nInj := 0
+							for i := range fops {
+								if fops[i].Injected {
+									rel := strings.TrimPrefix(fops[i].Path, fd)
+									if strings.HasPrefix(rel, "/root/") || strings.HasPrefix(rel, "/home/") {
+										act = &fops[i]
+										nInj++
+									} else if !strings.HasPrefix(fops[i].Path, "/sys/") && !strings.HasPrefix(fops[i].Path, "/proc/") {
+										// (a failed read of /sys/kernel/mm/transparent_hugepage/hpage_pmd_size is a probe of the Go runtime
+										// whose failure it ignores; it is no operation of the command)
+										nInj++
+									}
+								}
+							}
+							if nInj == 1 && act != nil {
+								moved := *act
+								moved.Path = base + strings.TrimPrefix(act.Path, fd)
+								cur = &moved
+								hit = true
+								stats.Moved++
+							}
 						}
 					}
 					if !hit {
@@ -359,6 +430,9 @@ func fsEnumerate(goit string, c *Chunk, evs []M, contents map[string][]byte, tz 
 						continue
 					}
 					st := c.T.Project(fr.Root, fr.Home)
+					if os.Getenv("VERIF_DEBUG") == "4" || os.Getenv("VERIF_DEBUG") == "3" && fileClass(base, cur.Path) == "wtfile" {
+						fmt.Fprintf(os.Stderr, "FAULT %s %s ord=%d %s %s errno=%s res=%s wt=%v fin=%v\n", name, cur.Syscall, cur.Ord, cur.Kind, strings.TrimPrefix(cur.Path, base), errno, fx.Res, st["wt"], post["wt"])
+					}
 					obs := fr.Observe(roObs, st, nil)
 					fl := emit(M{"kind": "state", "st": st, "obs": obs, "trace": label})
 					step := cloneEv(cmdEv)
